@@ -1,7 +1,7 @@
 from algo_prop import make
 LEAN_EXTRA = ["PyXABProofs.Generated.FormulasC06"]
 ALGOS = ["T_HOO", "HCT", "VHCT"]
-budget, explore, search, replay = make("C06", ALGOS, salt=600)
+budget, explore, search, replay = make("C06", ALGOS, salt=600, long_runs=__import__("props.C05", fromlist=["LONG"]).LONG)
 RULE = ("the documented pull/receive loop on the real classes: algorithm x partition class (K 2..5) x dimension 1..3 x box shape x "
         "parameters from the documented ranges x ten reward modes (dyadic noise, all-negative, zero, constant, few-valued ties, "
         "alternating sign, large, objective+noise) x five split-fraction modes, 20..150 rounds, time labels t0+i, recommendation "
